@@ -298,3 +298,7 @@ also("C13", "Also: the item lists behind %r / %c / %x / %X (shared with C12): a 
 _O = "Also: every Add/Sub/AddAssign/SubAssign impl delegates in its own direction to the method for its right-hand type (a `-` that calls checked_add_* type-checks), and std Durations are converted whole by TimeDelta::from_std."
 also("C03", _O)
 also("C08", _O)
+also("C02", "Also: each TimeZone::timestamp_* wrapper calls the constructor it wraps at one site, on its own parameters (no retry with adjusted arguments).")
+also("C13", "Also: the long-name scanners test the remaining length only against the suffix's own length (a constant cut-off above the shortest suffix skips June / July).")
+also("C19", "Also: the long-name scanners behind Month / Weekday FromStr: same calls in both, length tested only against the suffix's own length (shared with C13).")
+also("C20", "Also: Weekday and Month, like the date and time types, write a string and no other Serializer primitive (their Deserialize requests deserialize_str).")
